@@ -63,8 +63,12 @@ def individual_los(rng):
     return dict(los_distribution_individual="PDF", kwargs_los_individual=dict(bin_edges=edges, pdf_array=pdf))
 
 
-def gen_history_cfg(rng):
+def gen_history_cfg(rng, want=None):
     cfg = c02.gen_config(rng)
+    for _ in range(60):
+        if want is None or cfg["cosmology"] == want:
+            break
+        cfg = c02.gen_config(rng)
     cfg["mode"] = rng.choice(["sampled", "sampled", "fixed_interp"])
     lenses = []
     for kw, lt, data in cfg["lenses"]:
@@ -125,7 +129,17 @@ def history_oracle(cfg, rng, seed_base):
         j = rng.randrange(len(base))
         base[j] = rng.uniform(lo[j], up[j])
         pts.append(sharpen(names, base) if sharp else base)
+    if cfg["cosmology"] == "oLCDM" and "om" in names and "ok" in names:
+        # the curved model: points INSIDE the box that the physical-model guard rejects (E(z)^2 <= 0 somewhere, or no dark
+        # energy left) belong to every history and to the comparison with the copies
+        io, ik = names.index("om"), names.index("ok")
+        for om, ok in [(0.9, 0.5), (0.05, -0.79), (0.6, 0.45), (0.3, 0.75)]:
+            if lo[io] <= om <= up[io] and lo[ik] <= ok <= up[ik]:
+                x = list(pts[0]) if all(a <= v <= b for v, a, b in zip(pts[0], lo, up)) else c02.gen_vector(rng, lo, up, "inside")
+                x[io], x[ik] = om, ok
+                pts.append(sharpen(names, x) if sharp else x)
     hist = [rng.randrange(len(pts)) for _ in range(rng.randint(16, 48))]
+    hist += [i for i in range(len(pts)) if i not in hist]
     # the optional distance table of likelihood() is an input like the vector: the same vector with a table, with another
     # table and without one are three different points; each is visited right after its table-less twin and after others
     tabs = {}
@@ -370,7 +384,7 @@ def run(ctx, res):
     n = ctx.n(14, 200)
     lines, meta = [], []
     for t in range(n):
-        cfg = gen_history_cfg(rng)
+        cfg = gen_history_cfg(rng, want="oLCDM" if t < 2 else None)      # the curved model (its own guard) in the first two
         import random as _random
         hseed, sbase = rng.randrange(2 ** 30), ctx.np_seed() % (2 ** 30)
         try:
